@@ -12,7 +12,7 @@ from rules.ctx import Ctx
 from props import c02, c08
 
 PROP = 'C18'
-FAMILY_FLOOR = 25
+FAMILY_FLOOR = 20
 INTS = ['u8', 'i8', 'u16', 'i16', 'u32', 'i32', 'u64', 'i64', 'u128', 'i128', 'usize', 'isize']
 
 def check_instance(inst, F, ctx, extra):
@@ -53,6 +53,8 @@ def main(tier, seed, t0):
         fams.setdefault((x['kind'], x['family']), []).append(x)
     n_f = 0
     for (kind, fid), ms in sorted(fams.items()):
+        if kind not in ('perm', 'reprfam'):
+            continue          # split families belong to C10, non-interference families to C09
         items = {}
         for m in ms:
             its = ex['mods'].get(m['id'])
@@ -67,14 +69,14 @@ def main(tier, seed, t0):
             ctx.violation(rule, None, '%s/%s' % (kind, fid), 'family %s (%s, %s, values %s..): member %s vs %s: %s' % (
                 fid, kind, ref_m['decl']['label'], [v['value'] for v in sorted(ref_m['decl']['variants'], key=lambda v: v['value'])][:6], m['member'], ref_m['member'], what),
                 key='C18/%s/%s' % (rule, ref_m['decl']['label']), construct='src/parser/values.rs::parse_values (sort), src/parser/mod.rs::Derive::parse' if kind == 'perm' else 'src/parser/mod.rs (repr table) + templates using #repr / #repr_unsigned')
-        if kind in ('perm', 'split'):
+        if kind == 'perm':
             ref = items.get(ref_m['id'])
             for m in ms[1:]:
                 if m['id'] not in items or ref is None:
                     continue
                 d = first_diff(ref, items[m['id']])
                 if d:
-                    report('permutation-identity' if kind == 'perm' else 'split-identity', m, d); break
+                    report('permutation-identity', m, d); break
             else:
                 ctx.ok(kind + '-identity', n=len(ms) - 1)
         else:
@@ -132,7 +134,7 @@ def main(tier, seed, t0):
             ctx.violation('width-table', None, 'repr list', 'the repr whitelist is %s, documented: %s' % (sorted(seen), sorted(INTS)), key='C18/width-table/list', construct='src/parser/mod.rs::Derive::parse (repr match)')
     # ---- all item rules on every family member
     st, d = runner.stage_inst(tier, seed)
-    ictx, n = runner.run_instances('props.c18', d, select=lambda r: 'family' in r)
+    ictx, n = runner.run_instances('props.c18', d, select=lambda r: r.get('kind') in ('perm', 'reprfam'))
     ctx.merge(ictx)
     ctx.programs |= {x['id'] for x in ex['instances']}
     fam0 = sorted(fams.items())[0]
